@@ -282,6 +282,22 @@ pub fn run(args: &[String]) {
                 Err(p) => format!("@@ {} fail panic: {}", stem, p),
             }
         }),
+        // `vharness run c01 check` — each stdin line is `<dir>\t<file>`: chdir to <dir> and call the real
+        // `incan::cli::commands::check_file("<file>")` (multi-file: imports are collected and checked as `incan --check` does).
+        "check" => each_line(|line| {
+            let mut it = line.split('\t');
+            let dir = it.next().unwrap_or("").to_string();
+            let file = it.next().unwrap_or("").to_string();
+            if std::env::set_current_dir(&dir).is_err() {
+                return format!("@@ {} fail cannot chdir to {}", file, dir);
+            }
+            match catch(|| incan::cli::commands::check_file(&file)) {
+                Ok(Ok(code)) if code.0 == 0 => format!("@@ {} ok", file),
+                Ok(Ok(code)) => format!("@@ {} fail exit code {}", file, code.0),
+                Ok(Err(e)) => format!("@@ {} fail {}", file, e.message.replace('\n', "\\n")),
+                Err(p) => format!("@@ {} fail panic: {}", file, p),
+            }
+        }),
         other => {
             eprintln!("c01: unknown mode {}", other);
             std::process::exit(2);
